@@ -218,3 +218,185 @@ Proof.
   - rewrite Hl. unfold pos_of. rewrite firstn_app.
     replace (k - length log)%nat with 0%nat by lia. cbn [firstn]. rewrite app_nil_r. reflexivity.
 Qed.
+
+(* ---------- replacing one page by another of the same size ---------- *)
+
+Lemma patch_app_skip : forall (a l d : list N) off,
+  patch (a ++ l) (length a + off) d = a ++ patch l off d.
+Proof.
+  intros a l d off. unfold patch.
+  rewrite firstn_app. rewrite firstn_all2 by lia.
+  replace (length a + off - length a)%nat with off by lia.
+  rewrite <- app_assoc. f_equal. f_equal. f_equal.
+  rewrite skipn_app. rewrite skipn_all2 by lia.
+  replace (length a + off + length d - length a)%nat with (off + length d)%nat by lia.
+  reflexivity.
+Qed.
+
+Lemma patch_head : forall (b d c : list N), length d = length b -> patch (b ++ c) 0 d = d ++ c.
+Proof.
+  intros b d c H. unfold patch. cbn [firstn app Nat.add]. rewrite H, skipn_app_exact. reflexivity.
+Qed.
+
+Lemma bytes_replace : forall log k s P P',
+  nth_error log k = Some (s, P) -> length (pg_data P') = length (pg_data P) ->
+  patch (bytes_of log) (pos_of log k) (pg_data P') = bytes_of (replace_nth log k (s, P')).
+Proof.
+  induction log as [|x log IH]; intros k s P P' Hn Hlen.
+  - destruct k; discriminate.
+  - destruct k as [|k].
+    + cbn [nth_error] in Hn. injection Hn as ->.
+      unfold pos_of. cbn [firstn bytes_of flat_map length replace_nth snd].
+      apply patch_head. exact Hlen.
+    + cbn [nth_error] in Hn. cbn [replace_nth].
+      unfold pos_of. cbn [firstn]. unfold bytes_of at 1 2. cbn [flat_map]. fold (bytes_of log).
+      rewrite app_length.
+      rewrite patch_app_skip.
+      change (length (flat_map (fun sp : N * opage => pg_data (snd sp)) (firstn k log))) with (pos_of log k).
+      rewrite (IH k s P P' Hn Hlen).
+      reflexivity.
+Qed.
+
+Lemma replace_keeps_mine : forall s2 log k s1 x y k2,
+  nth_error log k = Some (s1, y) -> s1 <> s2 ->
+  mine s2 (skipn k2 (replace_nth log k (s1, x))) = mine s2 (skipn k2 log).
+Proof.
+  intros s2 log. induction log as [|e log IH]; intros k s1 x y k2 Hn Hne.
+  - destruct k; discriminate.
+  - destruct k as [|k]; cbn [nth_error] in Hn.
+    + injection Hn as ->. cbn [replace_nth]. destruct k2; cbn [skipn]; [| reflexivity].
+      unfold mine. cbn [filter fst].
+      replace (s1 =? s2) with false by (symmetry; now apply N.eqb_neq). reflexivity.
+    + cbn [replace_nth]. destruct k2; cbn [skipn].
+      * unfold mine. cbn [filter]. destruct (fst e =? s2); cbn [map];
+          [f_equal|]; apply (IH k s1 x y 0%nat Hn Hne).
+      * apply (IH k s1 x y k2 Hn Hne).
+Qed.
+
+Lemma replace_keeps_pos : forall log k s1 x y k2,
+  nth_error log k = Some (s1, y) -> length (pg_data x) = length (pg_data y) ->
+  pos_of (replace_nth log k (s1, x)) k2 = pos_of log k2.
+Proof.
+  induction log as [|e log IH]; intros k s1 x y k2 Hn Hlen.
+  - destruct k; discriminate.
+  - destruct k as [|k]; cbn [nth_error] in Hn.
+    + injection Hn as ->. cbn [replace_nth]. destruct k2; [reflexivity|].
+      unfold pos_of. cbn [firstn]. unfold bytes_of. cbn [flat_map snd]. rewrite !app_length, Hlen. reflexivity.
+    + cbn [replace_nth]. destruct k2; [reflexivity|].
+      unfold pos_of. cbn [firstn]. unfold bytes_of. cbn [flat_map]. rewrite !app_length.
+      f_equal. apply (IH k s1 x y k2 Hn Hlen).
+Qed.
+
+Lemma replace_keeps_nth : forall (log : list wpage) k x k2,
+  k2 <> k -> nth_error (replace_nth log k x) k2 = nth_error log k2.
+Proof.
+  induction log as [|e log IH]; intros k x k2 Hne; [destruct k; reflexivity|].
+  destruct k as [|k], k2 as [|k2]; cbn [replace_nth nth_error]; try reflexivity; try congruence.
+  apply IH. congruence.
+Qed.
+
+Lemma replace_nth_same : forall (log : list wpage) k x y,
+  nth_error log k = Some y -> nth_error (replace_nth log k x) k = Some x.
+Proof.
+  induction log as [|e log IH]; intros k x y Hn; [destruct k; discriminate|].
+  destruct k as [|k]; cbn [replace_nth nth_error]; [reflexivity|]. apply (IH k x y Hn).
+Qed.
+
+Lemma mine_split_at : forall s log k P,
+  nth_error log k = Some (s, P) ->
+  mine s log = mine s (firstn k log) ++ P :: mine s (skipn (S k) log).
+Proof.
+  intros s log k P Hn.
+  rewrite <- (firstn_skipn k log) at 1. rewrite mine_app. f_equal.
+  assert (H : skipn k log = (s, P) :: skipn (S k) log).
+  { clear - Hn. revert k Hn. induction log as [|e log IH]; intros k Hn; [destruct k; discriminate|].
+    destruct k as [|k]; cbn [nth_error] in Hn; [injection Hn as ->; reflexivity|].
+    cbn [skipn]. apply IH. exact Hn. }
+  rewrite H. unfold mine. cbn [filter fst]. rewrite N.eqb_refl. reflexivity.
+Qed.
+
+Lemma firstn_replace : forall (log : list wpage) k x, firstn k (replace_nth log k x) = firstn k log.
+Proof.
+  induction log as [|e log IH]; intros k x; [destruct k; reflexivity|].
+  destruct k as [|k]; cbn [replace_nth firstn]; [reflexivity|]. now rewrite IH.
+Qed.
+
+Lemma skipn_replace : forall (log : list wpage) k x, skipn (S k) (replace_nth log k x) = skipn (S k) log.
+Proof.
+  induction log as [|e log IH]; intros k x; [destruct k; reflexivity|].
+  destruct k as [|k]; cbn [replace_nth skipn]; [reflexivity|]. apply IH.
+Qed.
+
+(* ---------- end of stream ---------- *)
+
+Definition eos_of (serial : N) (P P' : opage) : Prop :=
+  pg_payload P' = pg_payload P /\ pg_segs P' = pg_segs P /\ pg_granule P' = pg_granule P /\
+  pg_index P' = pg_index P /\ pg_htype P' = N.lor (pg_htype P) ht_eos /\
+  page_bytes writer_table (pg_payload P') (pg_segs P') (pg_htype P') (pg_granule P') serial (pg_index P')
+  = Some (pg_data P').
+
+Lemma page_data_length : forall payload segs ht gr serial idx data,
+  page_bytes writer_table payload segs ht gr serial idx = Some data ->
+  length data = (27 + length segs + length payload)%nat.
+Proof.
+  intros payload segs ht gr serial idx data H.
+  destruct (page_bytes_shape payload segs ht gr serial idx) as (c & _ & _ & Hs).
+  rewrite Hs in H.
+  assert (Hd : data = page_head ht gr serial idx ++ le_bytes 4 c ++ [u8 (N.of_nat (length segs))] ++ segs ++ payload)
+    by congruence.
+  rewrite Hd.
+  rewrite !app_length, page_head_length, le_bytes_length. cbn [length]. lia.
+Qed.
+
+Lemma mark_eos_spec : forall log tr,
+  last_ok true log tr -> mine (tr_serial tr) log <> [] ->
+  exists k P P',
+    nth_error log k = Some (tr_serial tr, P) /\ mine (tr_serial tr) (skipn (S k) log) = [] /\
+    eos_of (tr_serial tr) P P' /\ length (pg_data P') = length (pg_data P) /\
+    mark_eos writer_table (bytes_of log) tr = Ok (bytes_of (replace_nth log k (tr_serial tr, P'))).
+Proof.
+  intros log tr Hlast Hne. unfold last_ok in Hlast.
+  destruct (mine (tr_serial tr) log) eqn:Em; [congruence|]. clear Hne.
+  destruct Hlast as (k & P & Hnth & Hpost & (Hsegs & Hsmall & Hpb) & Hl).
+  destruct (create_pages_for_chain (pg_payload P) (N.lor (pg_htype P) ht_eos) (pg_granule P)
+              (tr_serial tr) (pg_index P)) as (pgs & Hcp & Hpay & Hch).
+  inversion Hch as [idx first rem pg Hr Hs Hlen Hht Hgr Hidx Hpb' |
+                    idx first rem pg more Hr]; subst; [| unfold full_page in *; lia].
+  cbn [flat_map] in Hpay. rewrite app_nil_r in Hpay.
+  exists k, P, pg.
+  assert (Heos : eos_of (tr_serial tr) P pg).
+  { unfold eos_of. rewrite Hpay, Hs, Hsegs, Hgr, Hidx, Hht. cbn [packet_page_htype].
+    repeat split.
+    rewrite Hpay, Hs, Hht, Hgr in Hpb'. cbn [packet_page_htype] in Hpb'. exact Hpb'. }
+  assert (Hdl : length (pg_data pg) = length (pg_data P)).
+  { rewrite (page_data_length _ _ _ _ _ _ _ Hpb'), (page_data_length _ _ _ _ _ _ _ Hpb).
+    rewrite Hpay, Hs, Hsegs. reflexivity. }
+  split; [exact Hnth|]. split; [exact Hpost|]. split; [exact Heos|]. split; [exact Hdl|].
+  unfold mark_eos. rewrite Hl. cbn [lp_payload lp_htype lp_granule lp_index lp_offset].
+  rewrite Hcp. cbn [flat_map]. rewrite app_nil_r, Nnat.Nat2N.id.
+  f_equal. apply (bytes_replace log k (tr_serial tr) P pg Hnth Hdl).
+Qed.
+
+(* the nil end-of-stream page *)
+Definition nil_eos_page (serial granule index : N) (P : opage) : Prop :=
+  pg_payload P = [] /\ pg_segs P = [] /\ pg_htype P = ht_eos /\ pg_granule P = granule /\
+  pg_index P = index /\
+  page_bytes writer_table [] [] ht_eos granule serial index = Some (pg_data P).
+
+Lemma write_nil_eos_spec : forall log tr,
+  tr_page_index tr <> 0 ->
+  exists P tr',
+    nil_eos_page (tr_serial tr) (tr_prev_granule tr) (tr_page_index tr) P /\
+    write_nil_eos writer_table (bytes_of log) tr = Ok (bytes_of (log ++ [(tr_serial tr, P)]), tr').
+Proof.
+  intros log tr Hne. unfold write_nil_eos.
+  apply N.eqb_neq in Hne. rewrite Hne.
+  destruct (page_bytes_shape [] [] ht_eos (tr_prev_granule tr) (tr_serial tr) (tr_page_index tr))
+    as (c & _ & _ & Hs).
+  rewrite Hs.
+  eexists (mkOpage _ [] [] ht_eos (tr_prev_granule tr) (tr_page_index tr)), _.
+  split.
+  - unfold nil_eos_page. cbn [pg_payload pg_segs pg_htype pg_granule pg_index pg_data].
+    repeat split. exact Hs.
+  - rewrite bytes_of_app. unfold bytes_of at 2. cbn [flat_map snd pg_data]. rewrite app_nil_r. reflexivity.
+Qed.
